@@ -22,7 +22,7 @@ func init() {
 			"(*NetworkRule).Match(element, request) == true, so collisions and stale buckets are invisible. Completeness: the engine consults every table and appends every result; AddRule offers a rule to the tables in order and stops exactly when one accepts; " +
 			"the shortcut probe visits every window start i with i+K <= len (loop condition evaluated on all small lengths), hashes [i,i+K) of the same request field that the shortcut conjunct of Match tests, K is the width of the indexed keys, " +
 			"the insert-side hash equals the probe-side hash on non-empty strings, and the stored key is the hash of one generated window; the domain probe hashes every dot-suffix of the request field that Match passes to the $domain test, " +
-			"the suffix enumerator emits one suffix per label, TryAdd keys every permitted domain and declines rules with a wildcard-TLD value; Match cannot return true without the shortcut conjunct.",
+			"the suffix enumerator emits one suffix per label, TryAdd keys every permitted domain and declines rules with a wildcard-TLD value; Match cannot return true without the shortcut conjunct. R3 also: the least-used selection of TryAdd starts its running minimum at a constant the usage counters cannot reach (at least 2^31-1 with a strict comparison, the largest value of the counter type with a non-strict one), so some window is always chosen and no rule keeps the zero hash. R4 accepts an enumerator that returns the hashes of the suffixes instead of the suffixes: the probe then looks up every element as it is and the enumerator hashes what it emits with the insert-side hash.",
 		Trusted: []string{"every window of a substring of u is a window of u (why the shortcut conjunct makes the window index complete)", "hash quality is irrelevant given re-validation"},
 	})
 }
